@@ -71,6 +71,16 @@ type ValStringer struct{ S string }
 
 func (v ValStringer) String() string { return v.S }
 
+// WithNilEmbeddedID embeds a nil pointer to a struct that has ID and Slug fields.
+type BaseID struct {
+	ID   int
+	Slug string
+}
+type WithNilEmbeddedID struct{ *BaseID }
+
+// NamedHelperContext is convertible to plush.HelperContext but is a different type.
+type NamedHelperContext plush.HelperContext
+
 // IDList is a named slice type with a value-receiver method.
 type IDList []int
 
